@@ -174,3 +174,20 @@ def run(res, a):
                                                        "required": "one session receiving and sending at the same time (the length of an incoming frame read, then a message of %d bytes encrypted, then the rest of the frame): %s" % (len(t[3]) // 2, why),
                                                        "failing_input_found": True, "replay": "python3 tools/check.py C06 --replay <this file>"}))
     res.obligations.append(("implementation-side runs: both directions of one session interleaved", bad == 0, "%d runs, %d failing" % (len(cases), bad)))
+    if not a.replay or " wcopy " in (" " + json.load(open(a.replay))["case"] + " "):
+        # byte sequences of any length written into an encrypted connection by the standard library's writers (io.Copy, a 4096-byte
+        # bufio.Writer like net/http's, one Write): a conformant peer decrypts exactly the bytes
+        ws = ([json.load(open(a.replay))["case"]] if a.replay else
+              ["wcopy %s %d" % (rb(rng, 32), n) for n in ([1, 4096, 4097, 9000, 100000] if a.tier == "quick" else [0, 1, 1024, 4095, 4096, 4097, 8192, 9000, 32768, 32769, 100000, 1000000])])
+        wobs = core.shard_run(os.path.join(core.BUILD, "hcdrv"), "connw", ["w%d %s" % (i, l) for i, l in enumerate(ws)])
+        wbad = 0
+        for i, l in enumerate(ws):
+            o = wobs.get("w%d" % i, "NO-OUTPUT")
+            res.cases += 1
+            res.count("kind:standard-writers")
+            if o != "copy=ok bufio=ok write=ok":
+                wbad += 1
+                res.violations.append(("standard-writers", {"property": ID, "family": "connw", "seed": res.seed, "case": l, "implementation_observed": o[:300],
+                                                            "required": "%s bytes written into an encrypted connection through io.Copy / bufio.Writer / one Write must come out identical at the peer: %s" % (l.split(" ")[2], o[:120]),
+                                                            "failing_input_found": True, "replay": "python3 tools/check.py C06 --replay <this file>"}))
+        res.obligations.append(("implementation-side runs: the standard library's writers over an encrypted connection", wbad == 0, "%d runs, %d failing" % (len(ws), wbad)))
